@@ -32,12 +32,14 @@ def stmtLeeway : Int := 60000000000
 
 /-- `b` is an entry of the configuration and the request URL `u` lies under it:
 same host (a standard port may be omitted), scheme https — or http if the backend
-itself is http —, and the backend's URL is a prefix of the request URL (host-only
-backends cover the whole host); or every host is allowed (`allowall`). -/
+itself is http —, and the backend's URL, closed by a "/" if written without one, is a
+prefix of the request URL closed likewise: `/foo/x` lies under `/foo`, the sibling path
+`/foobar` does not (host-only backends cover the whole host); or every host is allowed
+(`allowall`). -/
 def Names (cfg : Cfg) (u : Url) (b : Backend) : Prop :=
   u.ok = true ∧
   ((∃ entries, (u.norm.1, entries) ∈ cfg.hosts ∧ b ∈ entries ∧ isUrlAllowed b u.scheme = true ∧
-      (b.url = "" ∨ hasPrefix b.url (withSlash u.norm.2) = true))
+      (b.url = "" ∨ hasPrefix (withSlash b.url) (withSlash u.norm.2) = true))
    ∨ cfg.allowAll = some b)
 
 /-- "a backend URL that is configured" -/
@@ -101,7 +103,7 @@ def allBackends (cfg : Cfg) : List Backend :=
 def namesB (cfg : Cfg) (u : Url) (b : Backend) : Bool :=
   u.ok &&
   ((cfg.hosts.any (fun he => he.1 = u.norm.1 && he.2.contains b && isUrlAllowed b u.scheme &&
-      (b.url = "" || hasPrefix b.url (withSlash u.norm.2))))
+      (b.url = "" || hasPrefix (withSlash b.url) (withSlash u.norm.2))))
    || cfg.allowAll = some b)
 
 def timeValidB (now : Int) (t : Tok) : Bool :=
